@@ -124,6 +124,8 @@ type explorer struct {
 	CallValue func(call *ssa.Call, e *explorer, st *pstate, fr *frame) ([]aval, bool)
 	// StoreEvent may describe a store; skip=true: the store does not update cells.
 	StoreEvent func(s *ssa.Store, e *explorer, st *pstate, fr *frame) (desc string, ok bool, skip bool)
+	// ValueHook may give the abstract value of any SSA value (map lookups, ...).
+	ValueHook func(v ssa.Value, e *explorer, st *pstate, fr *frame) (aval, bool)
 	MaxDepth   int
 	MaxPaths   int
 	paths      int
@@ -423,6 +425,11 @@ func shortName(n string) string {
 func (e *explorer) eval(v ssa.Value, st *pstate, fr *frame) aval {
 	if a, ok := fr.vals[v]; ok {
 		return a
+	}
+	if e.ValueHook != nil {
+		if a, ok := e.ValueHook(v, e, st, fr); ok {
+			return a
+		}
 	}
 	if e.CellOf != nil {
 		if cell, ok := e.CellOf(v, fr); ok {
